@@ -2,7 +2,7 @@ SPECIFICATION Spec
 CONSTANTS
   P = 5
   NEQ = 2
-  Variants = 2
+  Variants = 3
   NShapes = 4
 INVARIANT Inv_PrimalUK Inv_DualUK Inv_DualSK Inv_Bayes Inv_ColCok Inv_Xvalid Inv_Shortcut
 CONSTRAINT Emit
